@@ -83,14 +83,34 @@ void h_run(void) {
       blocking += !prog[f].op[i].try_;
     }
   }
-  sim_describe("threads=%d fibers=%d mutexes=%d blocking_locks=%d preempt=1/%d", c.threads, nfib, nmtx, blocking, c.preempt_inv);
+  sim_describe("threads=%d fibers=%d mutexes=%d blocking_locks=%d preempt=1/%d (a crowd of phantom contenders is drawn later)", c.threads, nfib, nmtx, blocking, c.preempt_inv);
   if (blocking >= 2) sim_nontrivial();
   sim_fiber_mode();
   fiber_manager_init(c.threads);
   mtx = h_dirty_alloc(2 * sizeof *mtx);
   for (int m = 0; m < nmtx; m++) fiber_mutex_init(&mtx[m]);
   fiber_t* f[MAXFB];
+  /* "for any number of contenders": in some runs the main fiber holds mutex 0 while the fibers start, and the
+   * mutex looks as if `crowd` more contenders had announced themselves and were still on their way to the wait
+   * queue (each announcement is one decrement of the counter; nothing else of a contender exists at that
+   * point). Nobody may get in while the main fiber holds it. Before the main fiber unlocks, the phantom
+   * announcements are taken back, so that the hand-off only deals with fibers that exist. */
+  static const int crowds[] = {126, 254, 32766, 65534, 65535, 65536, 1 << 20};
+  const int crowd = wl_pct(12) ? crowds[wl_pick(7)] - wl_int(0, 2) : 0;
+  if (crowd) {
+    fiber_mutex_lock(&mtx[0]);
+    g_acquired(0, 99, "lock (main fiber)");
+    atomic_fetch_sub(&mtx[0].counter, crowd);
+    sim_probe("phantom_contenders", 1);
+  }
   for (int i = 0; i < nfib; i++) f[i] = fiber_create(STK, fib, (void*)(intptr_t)i);
+  if (crowd) {
+    for (int k = 0; k < 12 + 4 * nfib; k++) fiber_yield();
+    atomic_fetch_add(&mtx[0].counter, crowd);
+    counter[0]++; /* the main fiber's critical section counts like any other */
+    g_release(0, 99);
+    fiber_mutex_unlock(&mtx[0]);
+  }
   for (int i = 0; i < nfib; i++) fiber_join(f[i], NULL);
   for (int m = 0; m < nmtx; m++) {
     if (counter[m] != expected[m]) sim_violation("C03-lost-update", "mutex %d: %ld critical sections ran but the counter they increment reads %ld", m, expected[m], counter[m]);
